@@ -605,3 +605,41 @@ Definition flatp_verdict (c : flat_case) : verdict :=
 Record flatw_case := { fw_case : hier_case; fw_flat : bool }.
 Definition flatw_verdict (c : flatw_case) : verdict :=
   if fw_flat c then hier_both_verdict (fw_case c) else Differ.
+
+(* ---- C10: monitors ---- *)
+From Lekkersim Require Import Monitor.
+
+Record mon_case := {
+  mn_net : net_case;
+  mn_ids : list nat;                          (* monitored components *)
+  mn_u : list (spin * QcCf);                  (* excitation of exposed pins *)
+  mn_power : bool;
+  mn_read : obs (list (spin * QcCf * QcCf))   (* observed columns: pin of the monitored side, _i, _o *)
+}.
+
+Definition waves_of (l : list (spin * QcCf)) : waves BQCf :=
+  fun p => match find (fun e => spin_eqb (fst e) p) l with Some e => snd e | None => b0 end.
+
+Definition cabs2 (z : BQCf) : BQCf := (cnorm2 z, BigQ.zero).
+
+Definition mon_verdict (c : mon_case) : verdict :=
+  let net := net_of (mn_net c) in
+  let n := List.length (nc_comps (mn_net c)) in
+  match mon_solve net (mn_ids c) (seq_sched (n - List.length (mn_ids c))) (seq_sched (List.length (mn_ids c)))
+                  (waves_of (mn_u c)), nc_obs (mn_net c), mn_read c with
+  | Ok r, Obs m, Obs rd =>
+      let T := mr_T r in
+      let okT := forallb (fun p => mem p (l_pins T)) (nc_expo (mn_net c)) &&
+                 expo_close tol9 T (nc_expo (mn_net c)) m in
+      let conv := fun z => if mn_power c then cabs2 z else z in
+      let okR := Nat.eqb (List.length rd) (List.length (mr_read r)) &&
+                 forallb (fun e => match e with (y, ui, uo) =>
+                    existsb (fun o => match o with (y', oi, oo) =>
+                       spin_eqb y y' && cclose tol9 (conv ui) oi && cclose tol9 (conv uo) oo end) rd end)
+                 (mr_read r) in
+      if okT && okR then Agree else Differ
+  | Ok _, _, _ => ImplError
+  | Err _, Raised, _ => BothReject
+  | Err _, _, Raised => BothReject
+  | Err _, _, _ => ModelUndefined
+  end.
